@@ -218,6 +218,8 @@ pub struct World {
     pub idle_service_streak: u32,
     /// alias resolver calls not yet matched with a PUBLISH on the wire, and bindings the resolver made for publishes that never went out
     pub pending_resolves: VecDeque<ResolverCall>,
+    /// every resolver call since the last reset: the resolver's state is a function of it (part of the key)
+    pub resolver_history: Vec<ResolverCall>,
     pub phantom_aliases: BTreeMap<u16, String>,
     /// C10 verdicts deferred to the end of the event: (transmitted tag, earlier tag, label)
     pub overtaken_candidates: Vec<(u32, u32, String)>,
@@ -304,7 +306,7 @@ impl World {
             assigned_client_id: None, session_epoch: 0, id_holders: BTreeMap::new(), inbound_q2_open: BTreeSet::new(),
             interrupted: BTreeSet::new(), delivered: Vec::new(), next_marker: 1, surfaced_publishes: 0, disconnect_submitted: false,
             wire_log: Vec::new(), record_wire: false, last_event_emitted: 0, last_event_completions: 0, idle_service_streak: 0,
-            pending_resolves: VecDeque::new(), phantom_aliases: BTreeMap::new(), overtaken_candidates: Vec::new(),
+            pending_resolves: VecDeque::new(), resolver_history: Vec::new(), phantom_aliases: BTreeMap::new(), overtaken_candidates: Vec::new(),
         }
     }
 
@@ -639,8 +641,8 @@ impl World {
     pub(super) fn absorb_resolver_calls(&mut self) {
         for call in self.eng.take_resolver_calls() {
             match call {
-                ResolverCall::Reset(_) => { self.pending_resolves.clear(); self.phantom_aliases.clear(); }
-                other => self.pending_resolves.push_back(other),
+                ResolverCall::Reset(max) => { self.pending_resolves.clear(); self.phantom_aliases.clear(); self.resolver_history.clear(); self.resolver_history.push(ResolverCall::Reset(max)); }
+                other => { self.resolver_history.push(other.clone()); self.pending_resolves.push_back(other) }
             }
         }
     }
